@@ -492,13 +492,15 @@ def Sys.execSkip (s : Sys) : List Label → Sys × List Bool
     | none => let (s', bs) := s.execSkip ls; (s', false :: bs)
     | some s1 => let (s', bs) := s1.execSkip ls; (s', true :: bs)
 
-/-- initial state: empty queue of size `maxSize`, thread `i` runs `progs[i]` -/
-def Sys.init (maxSize : Nat) (progs : List (List CallSpec)) (resultOf : CmdRef → Nat) : Sys where
+/-- initial state: empty queue of size `maxSize`, thread `i` runs `progs[i]`; `counter0` is the start
+value of `commandsLocalCounter` (`random.getrandbits(48)` in `SyncObj.__init__`: request ids of one
+process run do not collide with those of an earlier run) -/
+def Sys.init (maxSize : Nat) (progs : List (List CallSpec)) (resultOf : CmdRef → Nat) (counter0 : Nat) : Sys where
   q := ⟨[], maxSize⟩
   thr := fun i => ⟨progs.getD i [], 0, .start⟩
   ars := fun _ => ARes.blank
   pend := []
-  counter := 0
+  counter := counter0
   resultOf := resultOf
   hist := []
 
